@@ -14,6 +14,23 @@ def _enc(v):
     return v
 
 
+class FailingStream:
+    """Proxy around the binary stream of the backend's UKVFile: the write that carries `needle` stores half of its
+    data and raises OSError (what a full disk does)."""
+    def __init__(self, raw, needle):
+        self._raw, self._needle = raw, needle
+
+    def write(self, data):
+        if self._needle is not None and self._needle in bytes(data):
+            self._needle = None
+            self._raw.write(bytes(data)[: max(1, len(data) // 2)])
+            raise Injected("stream write failure (ENOSPC)")
+        return self._raw.write(data)
+
+    def __getattr__(self, name):
+        return getattr(self._raw, name)
+
+
 class SessionSeqAdapter:
     _shared = None
 
@@ -88,6 +105,9 @@ class SessionSeqAdapter:
             try:
                 if act["kind"] == "w":
                     with lib.writing(timeout=10):
+                        if f == "stream":
+                            uk = b._ukvfile
+                            uk._stream = FailingStream(uk._stream, mykeys[at - 1].encode() * 3)
                         seen = len(lib.keys())
                         for j, k in enumerate(mykeys, start=1):
                             if f == "body" and at == j - 1:
@@ -120,7 +140,7 @@ class SessionSeqAdapter:
         p = parse(self.path.read_bytes())
         ids = sorted([int(x) for x in k.decode().split("-")] for k, v in p["recs"] if v == k * 3)
         bad = [k for k, v in p["recs"] if v != k * 3]
-        o = {"file": ids, "lockfree": lockfree}
-        if bad or p["junk"]:
-            o["corrupt"] = [repr(bad), p["junk"]]
+        o = {"file": ids, "lockfree": lockfree, "torn": p["junk"] > 0}
+        if bad:
+            o["corrupt"] = repr(bad)
         return o
